@@ -586,6 +586,17 @@ fn filespec_case(ctx: &mut CaseCtx) -> CaseResult {
                 && probe < later
         }
     };
+    // a configuration whose current file would have the empty name (no fixed part, empty current
+    // infix, no suffix) denotes the directory itself: nothing can be written, only "no panic"
+    let empty_current_name = cfg
+        .names
+        .naming
+        .current_infix()
+        .is_some_and(|c| cfg.names.compose(c).is_empty());
+    if empty_current_name {
+        res.count("cases_with_empty_current_file_name", 1);
+    }
+    let suitable = suitable && !empty_current_name;
     if !suitable {
         res.count("cases_with_unsuitable_timestamp_format", 1);
     }
@@ -720,13 +731,25 @@ fn directory_case(ctx: &mut CaseCtx) -> CaseResult {
     guarded(&mut res, "sentinel write", || driver.write(log::Level::Error, &sentinel));
     guarded(&mut res, "shutdown", || driver.shutdown());
     flw::uninstall_virtual();
-    if res.verdict == Verdict::Held {
+    // With a background cleanup thread the directory is removed and re-created under the feet of
+    // a cleanup that may be in the middle of its work list: the file names of the frozen virtual
+    // second are re-used in the new directory, and a deletion decided for the old namesake can hit
+    // the new file. Where the sentinel ends up is then not asserted (no panic / no hang is).
+    let sentinel_must_be_there = !cfg.clean_bg || cfg.clean == Clean::Never;
+    if !sentinel_must_be_there {
+        res.count("directory_cases_without_sentinel_rule", 1);
+    }
+    if res.verdict == Verdict::Held && sentinel_must_be_there {
         let mut found = false;
         if let Ok(rd) = std::fs::read_dir(&dir) {
             for e in rd.flatten() {
-                if String::from_utf8_lossy(&std::fs::read(e.path()).unwrap_or_default())
-                    .contains(&sentinel)
-                {
+                let raw = std::fs::read(e.path()).unwrap_or_default();
+                let data = if e.path().extension().is_some_and(|x| x == "gz") {
+                    family::gunzip(&raw).unwrap_or(raw)
+                } else {
+                    raw
+                };
+                if String::from_utf8_lossy(&data).contains(&sentinel) {
                     found = true;
                 }
             }
@@ -830,6 +853,20 @@ const RECUR_KINDS: &[&str] = &[
     "writer",
 ];
 
+/// recursion of any depth: the Display implementation logs a record whose argument logs again
+struct Nest(u8);
+impl std::fmt::Display for Nest {
+    fn fmt(&self, f: &mut std::fmt::Formatter<'_>) -> std::fmt::Result {
+        if self.0 > 0 {
+            log::warn!(target: "flmon::nest", "nested record, {} to go: {}", self.0, Nest(self.0 - 1));
+            if self.0 % 2 == 0 {
+                log::error!(target: "{R,_Default}", "nested record to both: {}", Nest(self.0 - 1));
+            }
+        }
+        write!(f, "nest-{}", self.0)
+    }
+}
+
 struct Inner;
 impl std::fmt::Display for Inner {
     fn fmt(&self, f: &mut std::fmt::Formatter<'_>) -> std::fmt::Result {
@@ -883,6 +920,16 @@ pub fn child_main(a: &ChildArgs) -> i32 {
                     .build()
                     .ok()
             });
+            // the sink must be drained: a full datagram queue blocks the sender, which would look
+            // like a hang of the log call
+            if let Some(s) = &s {
+                if let Ok(reader) = s.try_clone() {
+                    std::thread::spawn(move || {
+                        let mut b = vec![0u8; 65536];
+                        while reader.recv(&mut b).is_ok() {}
+                    });
+                }
+            }
             _keep_socket = s;
             if let Some(w) = w {
                 lg = lg.add_writer("R", w);
@@ -924,6 +971,10 @@ pub fn child_main(a: &ChildArgs) -> i32 {
     log::info!(target: "flmon::outer", "{}", Inner);
     log::info!(target: "{R,_Default}", "{}", Inner);
     log::info!(target: "{R}", "{}", Inner);
+    // deeper nesting: 3 or 4 levels
+    let depth = 3 + (a.case / 8 / RECUR_KINDS.len() as u64 % 2) as u8;
+    log::info!(target: "flmon::outer", "{}", Nest(depth));
+    log::info!(target: "{R}", "{}", Nest(depth));
     log::info!(target: "flmon::sentinel", "SENTINEL-{}", a.case);
     handle.shutdown();
     let _ = std::fs::write(a.dir.join("done"), b"done");
